@@ -11,6 +11,7 @@ NOTE = ("Trusted: go/ssa construction (x/tools v0.29.0), the engine's instructio
 
 # property -> (claimed?, level text, design ref)
 CLAIMED = {
+ "C07": ("The concatenation-header parser is decided for every string up to 10 octets (all header octets symbolic); the generic splitter for every octet stream of the listed lengths (content and reference symbolic) against an independent oracle (sizes, header octets, minimal part count, parser inverse); the 255-part limit through the real entry points.", "DESIGN.md 8 C07"),
  "C20": ("One-step induction: every write/read primitive is executed symbolically from an arbitrary valid or errored object state with arbitrary arguments; inverse, count/length agreement and error stickiness are solver-decided per primitive. Bounded by buffer sizes listed in the evidence.", "DESIGN.md 8 C20"),
  "C08": ("Encode/Decode/validators are decided for every code point and every septet pair against an independently transcribed TS 23.038 table; Pack/Unpack and the transformers for every septet vector up to the stated length against the bit-position formula. Bounded by vector length only.", "DESIGN.md 8 C08"),
  "C17": ("All 2^64 ids and all in-range field tuples are decided by bit-vector queries over the SSA of CombineMsgID/SplitMsgID; the only bound is the machine word.", "DESIGN.md 8 C17"),
